@@ -313,6 +313,14 @@ Section FitBook.
     | a :: r => s1 <- curve_step c p so fitanis var_save s a;; run_evals c p so fitanis var_save r s1
     end.
 
+  (* the model state after EACH evaluation (what the optimiser's curve values are computed from) *)
+  Fixpoint evals_states c p so fitanis var_save (evs : list (list T)) (s : MState T) : Res (list (MState T)) :=
+    match evs with
+    | [] => Ok []
+    | a :: r => s1 <- curve_step c p so fitanis var_save s a;;
+                l <- evals_states c p so fitanis var_save r s1;; Ok (s1 :: l)
+    end.
+
   (* ---------------- _post_fitting *)
   Fixpoint post_opts c (vs : list (option T)) (i : nat) (acc : list T) (s : MState T) : Res (MState T * list T) :=
     match vs with
@@ -358,6 +366,14 @@ Section FitBook.
     let var_save := get_var s1 in
     s2 <- run_evals c para so fitanis var_save evs s1;;
     post fx c para so fitanis isdir var_save s2 popt.
+
+  (* the states the model object goes through during the optimisation, for the correspondence *)
+  Definition fit_trace (fx : bool) c (nopt : nat) (sel : list (nat * Sel T)) (sill : SillSpec T) (anis : AnisSpec T)
+      (isdir : bool) (evs : list (list T)) (s0 : MState T) : Res (list (MState T)) :=
+    pp <- pre_para fx c nopt sel sill anis s0;;
+    let '(s1, para, so, af) := pp in
+    if isdir && c_latlon c then Err E_LATLON else
+    evals_states c para so (af && isdir) (get_var s1) evs s1.
 
   (* what is handed to curve_fit (bounds and p0), for the correspondence *)
   Definition fit_init (fx : bool) c (nopt : nat) (sel : list (nat * Sel T)) (sill : SillSpec T) (anis : AnisSpec T)
